@@ -74,6 +74,8 @@ def run_case(case: dict[str, Any], tier: str, seed: int) -> dict[str, Any]:
         from vlib import generated
 
         prog = generated.build(case)
+    if not prog.kwargs.get("opset") and case["src"] == "sentinel":
+        prog.family = prog.family  # sentinels: default opset
     cfg = case.get("cfg", "own")
     try:
         model = _export(prog, cfg)
